@@ -243,6 +243,10 @@ def run(ctx):
         ctx.bad(rule, key, "two circuits share an algorithm id (or constructors were not found): %s" % {c: d for c, d in sorted(ids.items())})
     ctx.floor(rule, 6)
 
+    # ------------- Prio2: role and query point bound to the aggregator id, the verification key and the nonce (shared with C19)
+    from rules import c19
+    c19.role_binding_rules(ctx, "R-C18.G.prio2-binding")
+
     # ------------- role: the aggregator id is compared at full width
     rule = "R-C18.G.role"
     try:
